@@ -12,6 +12,24 @@ CHECKS = {
          'classes and compared with exact integer arithmetic; complete inside the stated alphabet, nothing sampled.',
          'Trusts Python integer arithmetic. Values outside the 8-bit and boundary alphabets are not covered.', '4 C14'),
 }
+CHECKS.update({
+ 'C05': ('exploration', 'bounded exhaustive enumeration of well-typed trees against a reference IR interpreter',
+         'Every well-typed tree of the families E1 (every operator over every leaf tuple), T (the left-hand side of each rewrite rule '
+         'with every leaf/constant choice on both sides of its side condition), N (cancellation rules fed with all single-point twins) '
+         'and E2 (depth 2) at widths 1/8/16/32/64 is simplified by the real expr_simp on fresh objects and compared with irsem on all '
+         '2^16 valuations (w=8) or the full boundary product; termination under a watchdog; the argument must stay unmodified.',
+         'Trusts mc/irsem.py (cross-checked against big-int arithmetic at start-up). Valuations exhaustive only at widths 8 and 1; depth <= 2 plus targeted depth 3.', '4 C05'),
+ 'C15': ('exploration', 'bounded exhaustive enumeration (all nodes, all ordered pairs, all replacement maps of a pool) against structural/semantic reference',
+         'Pool with every node kind, segmented memory, assignments, flagged identifiers, and all single-point mutants/twins of the exemplars: '
+         'unary laws on every node, the full equality matrix over all ordered pairs (symmetric, transitive, == xor !=, equal => equal hash '
+         'and equal irsem value), every replacement map with |d| <= 2 over the sub-terms against reference substitution, canonize value.',
+         'Trusts irsem and the neutral-tree walker; segment override treated as a different address space.', '4 C15'),
+ 'C16': ('exploration', 'bounded exhaustive enumeration: dependency probing on the full valuation grid + reference unifier',
+         'For every tree of the read-set family the real dependence on each identifier / memory cell is decided on the complete valuation '
+         'grid and must be reported by get_r (both mem_read modes); get_w names the destination. Every (pattern, binding) instance and every '
+         'single-point mutant of it is matched by the real MatchExpr and compared with a reference unifier.',
+         'Trusts irsem; dependence decided on the enumerated grid; completeness of MatchExpr not demanded.', '4 C16'),
+})
 PENDING = {}
 
 def main():
